@@ -13,6 +13,7 @@ import Proofs.MarkupSuccess
 import Proofs.MarkSuccess
 import Proofs.UnifyText
 import Proofs.InsertAtValid
+import Proofs.HoleValid
 namespace PM.C01
 open PM
 
@@ -262,6 +263,56 @@ theorem apply_valid' (S : Schema) (st : Step) (doc doc' : Node)
   | attr pos name value => exact attr_valid S doc doc' pos name value hd h
   | docAttr name value => exact docAttr_valid S doc doc' name value hd h
 
+/-- **replace-around step whose closed slice is valid except for the node that receives the gap** (`holeKids`: the
+    wrappers of `wrap`, the new node of `set_node_markup` — `<blockquote()>` is no valid node where `blockquote` wants
+    `block+`, so `SliceValid` fails for it; `PayloadValid` holds, but mentions the document): whatever `apply` returns
+    is a valid document.  A condition on the step alone; `SliceValid` with a closed slice is the special case
+    `holeKids_of_checkKids`. -/
+theorem replaceAround_valid_hole (S : Schema) (doc doc' : Node) (f t gf gt : Nat) (sl : Slice)
+    (ins : Nat) (st : Bool) (hd : Valid S doc) (h0 : sl.openStart = 0) (h1 : sl.openEnd = 0)
+    (hv : holeKids S sl.content ins = true)
+    (h : S.apply (.replaceAround f t gf gt sl ins st) doc = .ok doc') : Valid S doc' := by
+  unfold Schema.apply at h
+  simp only at h
+  split at h
+  · simp at h
+  · split at h
+    · simp at h
+    · rename_i gap hgap
+      split at h
+      · simp at h
+      · rename_i hopen
+        have hgc : gap.openStart = 0 ∧ gap.openEnd = 0 := by
+          simpa [not_or] using hopen
+        split at h
+        · simp at h
+        · simp at h
+        · rename_i inserted hinst
+          have hgv := slice_openValid S doc gf gt gap hd hgap
+          rw [hgc.1, hgc.2] at hgv
+          have hg : S.checkKids gap.content = true := by simpa [openValid, rightOpenValid] using hgv
+          exact replace_valid S doc doc' f t inserted hd
+            (insertAt_closed_holeValid S sl inserted ins gap.content hg h0 h1 hv hinst) h
+
+section Hole
+private def hnt (name : String) (dfa : Array DfaState) : NodeType :=
+  { name := name, isText := false, isInline := false, isLeaf := false, isAtom := false,
+    inlineContent := false, isolating := false, defining := false, code := false,
+    dfa := dfa, markSet := some [], attrs := [] }
+/-- doc "(para | quote)+", quote "para+", para "text*" -/
+private def hS : Schema :=
+  { nodes := #[
+      hnt "doc" #[⟨false, [(1, 1), (2, 1)]⟩, ⟨true, [(1, 1), (2, 1)]⟩],
+      { hnt "para" #[⟨true, [(3, 0)]⟩] with inlineContent := true },
+      hnt "quote" #[⟨false, [(1, 1)]⟩, ⟨true, [(1, 1)]⟩],
+      { hnt "text" #[⟨true, []⟩] with isText := true, isInline := true, isLeaf := true, isAtom := true }],
+    marks := #[], top := 0, textTy := 3 }
+/-- the slice of `wrap(…, [quote])`: the empty wrapper is no valid node, yet valid up to the node receiving the gap -/
+example : openValid hS 0 0 [.elem 2 [] [] []] = false ∧ holeKids hS [.elem 2 [] [] []] 1 = true := by
+  constructor
+  · simp only [openValid, rightOpenValid]; rfl
+  · simp [holeKids, Node.size, fsize, canonicalMarks, Schema.checkKids]
+end Hole
 /-! The former counterexample (finding C01-insert-inside-text): schema `doc: para+`, `para: image* text*`;
     `doc(para(image), para("z"))`, `ReplaceAroundStep(0, 3, 1, 2, <para("ab")>, insert = 2)`: the slice is valid, the
     gap content (`image`) would land between the two halves of `"ab"`.  The old test `para.can_replace(0, 0, [image])`
